@@ -3,7 +3,7 @@
 # doctests pass), demonstration fails with the change and passes without it. Usage: confirm_seeded.sh <dir>...
 # where each <dir> holds patch.diff, seeded_demo.rs, meta.json (and, for cooperating-site changes, edit1.diff,
 # edit2.diff: each alone must leave the demonstration passing). Prints one line per change.
-WT=/tmp/confirm_wt
+WT="${CONFIRM_WT:-/tmp/confirm_wt}"
 git -C /repo worktree remove --force $WT 2>/dev/null
 git -C /repo worktree add -q --detach $WT HEAD || exit 1
 for d in "$@"; do
